@@ -225,8 +225,18 @@ class Check:
                 return 2
             env = b.run_env(cfg.get("env"))
             main_exe = plain_exe or race_exe
+            total = None
+            if cfg.get("enumerated"):
+                o, log = run_proc(main_exe, env, "total", os.path.join(b.dir, "total.json"), {"VERIF_TIER": tier}, timeout=120)
+                if o is None or o.get("total", -1) < 0:
+                    problems.append("cannot obtain the size of the enumerated space: %s" % str(log)[-500:])
+                else:
+                    total = o["total"]
+                    tc = dict(tc, runs=total)
             # 1. determinism self-test
             nseeds = cfg.get("det_seeds", 24) * (3 if thorough else 1)
+            if total is not None:
+                nseeds = min(nseeds, total)
             det, mism, errs = self.determinism(main_exe, env, seed, tier, nseeds, thorough)
             problems += errs
             if mism:
@@ -335,7 +345,8 @@ class Check:
                 "distinct_nontrivial": len(agg["hashes"]),
                 "rule": cfg["rule"],
                 "samples": agg["samples"][:3] or [{"note": "no sample collected"}],
-                "exhaustive": bool(cfg.get("exhaustive", False)),
+                "exhaustive": bool(total is not None and agg["runs"] == total and not agg["inconclusive"]),
+                "enumerated_space": total,
                 "runs_per_hour": int(agg["runs"] / max(wall, 1e-9) * 3600),
                 "simulated_time_s": round(agg["sim_ns"] / 1e9, 1),
                 "scheduler_steps": agg["steps"],
